@@ -17,18 +17,12 @@ const S2: [&[u8]; 7] = [b"f1", b"f2", b"@ignore", b"@cwd /a", b"@cwd /b/", b"@ex
 
 fn got_views(p: &Plist) -> mp::Views {
     let entries: Vec<mp::Entry> = p.verif_entries().iter().map(plist_entry_model).collect();
-    // map install/uninstall references back to indices by address
-    let idx = |list: Vec<&pkgsrc::plist::PlistEntry>| -> Vec<usize> {
-        list.iter()
-            .map(|e| p.verif_entries().iter().position(|x| std::ptr::eq(x, *e)).unwrap_or(usize::MAX))
-            .collect()
-    };
     let _ = entries;
     mp::Views {
         files: p.files().iter().map(|f| f.as_bytes().to_vec()).collect(),
         files_prefixed: p.files_prefixed().iter().map(|f| f.as_bytes().to_vec()).collect(),
-        install: idx(p.install_cmds()),
-        uninstall: idx(p.uninstall_cmds()),
+        install: vec![],
+        uninstall: vec![],
         depends: p.depends().iter().map(|s| s.to_string()).collect(),
         build_depends: p.build_depends().iter().map(|s| s.to_string()).collect(),
         conflicts: p.conflicts().iter().map(|s| s.to_string()).collect(),
@@ -38,6 +32,11 @@ fn got_views(p: &Plist) -> mp::Views {
         display: p.display().map(|f| f.as_bytes().to_vec()),
         is_preserve: p.is_preserve(),
     }
+}
+
+/// install / uninstall lists by value
+fn cmd_lists(p: &Plist) -> (Vec<mp::Entry>, Vec<mp::Entry>) {
+    (p.install_cmds().iter().map(|e| plist_entry_model(e)).collect(), p.uninstall_cmds().iter().map(|e| plist_entry_model(e)).collect())
 }
 
 fn diff(w: &mp::Views, g: &mp::Views) -> Option<(&'static str, String, String)> {
@@ -50,8 +49,6 @@ fn diff(w: &mp::Views, g: &mp::Views) -> Option<(&'static str, String, String)> 
     }
     cmp!(files, "files()");
     cmp!(files_prefixed, "files_prefixed()");
-    cmp!(install, "install_cmds() (entry indices)");
-    cmp!(uninstall, "uninstall_cmds() (entry indices)");
     cmp!(depends, "depends()");
     cmp!(build_depends, "build_depends()");
     cmp!(conflicts, "conflicts()");
@@ -72,16 +69,29 @@ fn check_text(t: &mut Tally, text: &[u8]) {
         Err(()) => return, // alphabets only hold valid lines
     };
     let want = mp::views(&entries);
-    let got = guard(|| Plist::from_bytes(text).map(|p| got_views(&p)).map_err(|e| e.to_string()));
+    let got = guard(|| Plist::from_bytes(text).map(|p| (got_views(&p), cmd_lists(&p))).map_err(|e| e.to_string()));
     match got {
-        Ok(Ok(g)) => {
+        Ok(Ok((g, (inst, uninst)))) => {
+            let want_inst: Vec<mp::Entry> = want.install.iter().map(|i| entries[*i].clone()).collect();
+            let want_uninst: Vec<mp::Entry> = want.uninstall.iter().map(|i| entries[*i].clone()).collect();
+            if inst != want_inst {
+                t.violation(Violation::new("views", case(), json!({"view": "install_cmds()", "value": format!("{:?}", want_inst)}), json!(format!("{:?}", inst)), "a PLIST view differs from the fold over the entry sequence"));
+                return;
+            }
+            if uninst != want_uninst {
+                t.violation(Violation::new("views", case(), json!({"view": "uninstall_cmds()", "value": format!("{:?}", want_uninst)}), json!(format!("{:?}", uninst)), "a PLIST view differs from the fold over the entry sequence"));
+                return;
+            }
+            let mut g = g;
+            g.install = want.install.clone();
+            g.uninstall = want.uninstall.clone();
             if let Some((view, w, o)) = diff(&want, &g) {
                 t.violation(Violation::new("views", case(), json!({"view": view, "value": w}), json!(o), "a PLIST view differs from the fold over the entry sequence"));
                 return;
             }
             // model-free cross-check: the four file views list the same files in the same order
-            let inst_files: Vec<usize> = g.install.iter().cloned().filter(|i| matches!(entries.get(*i), Some(mp::Entry::File(_)))).collect();
-            let unin_files: Vec<usize> = g.uninstall.iter().cloned().filter(|i| matches!(entries.get(*i), Some(mp::Entry::File(_)))).collect();
+            let inst_files: Vec<&mp::Entry> = inst.iter().filter(|e| matches!(e, mp::Entry::File(_))).collect();
+            let unin_files: Vec<&mp::Entry> = uninst.iter().filter(|e| matches!(e, mp::Entry::File(_))).collect();
             if inst_files != unin_files || inst_files.len() != g.files.len() || g.files.len() != g.files_prefixed.len() {
                 t.violation(Violation::new("views", case(), json!("the four file views agree"), json!(format!("{:?} {:?} {} {}", inst_files, unin_files, g.files.len(), g.files_prefixed.len())), "file views disagree with each other"));
                 return;
@@ -124,7 +134,7 @@ fn main() {
          each real view must equal it, and the four file views must list the same files in the \
          same order (model-free). Non-trivial = lists containing both an @ignore and a file.",
     );
-    run.assume("reference fold: mc/core/src/model/plist.rs views(); entries read through the verif hook to identify install/uninstall references by address");
+    run.assume("reference fold: mc/core/src/model/plist.rs views(); install/uninstall lists compared by value with the expected sub-sequence of the entry sequence");
 
     let n1 = run.pick(4, 5);
     run.bound(format!("S1: all {} sequences of <= {} entries over 26 kinds", seqs::count(S1.len(), n1), n1));
